@@ -231,10 +231,57 @@ class Recon:
                 entry = _dedup(entry)
                 e = entry[0] if len(entry) == 1 else ("join", tuple(sorted(entry, key=repr)))
                 return ("phi", ctx.qual, ctx.loop_ordinal(loop), e)
+        gated = self._gate(ctx, [(d.stmt, d) for d in defs if d.stmt is not None], ctx.func,
+                           lambda d: self._def(ctx, d, binds, depth + 1), binds, depth) if all(d.stmt is not None for d in defs) else None
+        if gated is not None:
+            return gated
         alts = _dedup([self._def(ctx, d, binds, depth + 1) for d in defs])
         if len(alts) == 1:
             return alts[0]
         return ("join", tuple(sorted(alts, key=repr)))
+
+    def _gate(self, ctx: FuncCtx, items, func, value_of, binds, depth):
+        """Gated join: if the definitions sit in opposite arms of an if/else (recursively), build a conditional
+        term ite(test, ...) instead of an unordered JOIN.  items: [(stmt, payload)]."""
+        if len(items) == 1:
+            return value_of(items[0][1])
+        if depth > MAX_DEPTH:
+            return None
+        # candidate If statements: ancestors of the first item
+        def arms(stmt):
+            out = []
+            cur = stmt
+            p = parent(cur)
+            while p is not None and cur is not func:
+                if isinstance(p, ast.If):
+                    if cur in p.body:
+                        out.append((p, True))
+                    elif cur in p.orelse:
+                        out.append((p, False))
+                cur = p
+                p = parent(p)
+            return out
+        per_item = [dict((id(i), (i, side)) for i, side in arms(st)) for st, _ in items]
+        common = set(per_item[0])
+        for d in per_item[1:]:
+            common &= set(d)
+        # outermost-first is not required; pick an If that actually separates the items
+        for key in common:
+            ifnode = per_item[0][key][0]
+            sides = [d[key][1] for d in per_item]
+            if all(sides) or not any(sides):
+                continue
+            t_items = [it for it, sd in zip(items, sides) if sd]
+            f_items = [it for it, sd in zip(items, sides) if not sd]
+            a = self._gate(ctx, t_items, func, value_of, binds, depth + 1)
+            b = self._gate(ctx, f_items, func, value_of, binds, depth + 1)
+            if a is None or b is None:
+                return None
+            test = self._e(ctx, ifnode.test, ctx.cfg.node_of.get(ifnode), binds, False, depth + 1)
+            if a == b:
+                return a
+            return ("ite", test, a, b)
+        return None
 
     def _def(self, ctx: FuncCtx, d: Def, binds, depth):
         key = (ctx.qual, id(d))
@@ -484,6 +531,7 @@ class Recon:
             return S.unk("depth-attr:" + name)
         mro = self.prog.mro(ci)
         vals = []
+        gate_items = []
         for c in mro:
             for (m, stmt, v) in c.self_assigns.get(name, []):
                 if _is_cache_rebinding(v, name):
@@ -504,9 +552,16 @@ class Recon:
                 if tgt_index is not None:
                     val = val[1][tgt_index] if val[0] == "tuple" and tgt_index < len(val[1]) else ("sub", val, S.C(tgt_index))
                 vals.append(val)
+                gate_items.append((m, stmt, val))
             if vals:
                 break
         if vals:
+            if len(vals) > 1 and len(gate_items) == len(vals) and len({id(m) for m, _, _ in gate_items}) == 1:
+                mctx = self.ctx_of(gate_items[0][0])
+                idx = {id(st): v for (m, st, v) in gate_items}
+                g = self._gate(mctx, [(st, st) for (m, st, v) in gate_items], mctx.func, lambda st: idx[id(st)], {}, depth + 1)
+                if g is not None:
+                    return g
             vals = _dedup(vals)
             return vals[0] if len(vals) == 1 else ("join", tuple(sorted(vals, key=repr)))
         for c in mro:
